@@ -81,6 +81,9 @@ def classify(kf, rec):
     if cl == "heading-in-tight-list-item":
         return c.get("kind") == "cross" and o.get("list_spacing") == "preserve" and \
             c01.heading_in_tight_item(dedent(c.get("doc", "")).strip() + "\n")
+    if cl == "loose-list-nested-in-tight-item":
+        return c.get("kind") == "cross" and o.get("list_spacing") == "preserve" and \
+            c01.loose_list_in_tight_item(dedent(c.get("doc", "")).strip() + "\n")
     if cl == "escaped-backslash-before-soft-break":
         even_bs_nl = re.compile(r"(?<!\\)(?:\\\\)+\r?\n")
         return c.get("kind") == "relayout" and (bool(even_bs_nl.search(c.get("a", ""))) != bool(even_bs_nl.search(c.get("b", ""))) or
